@@ -1,6 +1,7 @@
 package kernel
 
 import (
+	"encoding/base64"
 	"encoding/json"
 	"fmt"
 	"time"
@@ -19,6 +20,15 @@ type Tx struct {
 	SeqDelta int64             `json:"seq_delta,omitempty"`
 	Dup      bool              `json:"dup,omitempty"` // deliver the same bytes twice (second must be rejected by sequence)
 	Note     string            `json:"note,omitempty"`
+	// Bin: the messages as base64 proto-encoded Any (used when JSON cannot represent the value faithfully, e.g. nil Int);
+	// when present it takes precedence over Msgs.
+	Bin []string `json:"bin,omitempty"`
+}
+
+// Query is one recorded ABCI query, executed against the committed state right after the block's Commit.
+type Query struct {
+	Path string `json:"path"`
+	Data string `json:"data"` // base64
 }
 
 // Block is one simulated block: clock advance, faults, transactions.
@@ -30,6 +40,7 @@ type Block struct {
 	FailDestOff []string `json:"fail_dest_off,omitempty"` // ... switched off
 	FailBurn    *bool    `json:"fail_burn,omitempty"`
 	Crash       int      `json:"crash,omitempty"` // 0 none, -1 die before Commit, k>0 die at k-th batch write of Commit
+	Queries     []Query  `json:"queries,omitempty"`
 	Note        string   `json:"note,omitempty"`
 }
 
@@ -82,8 +93,13 @@ type TxResult struct {
 
 // Source yields blocks and transactions: a generator (records what it produced) or a recorded trace.
 type Source interface {
-	NextBlock(r *Run) *Block      // nil = end
-	NextTx(r *Run, b *Block) *Tx  // nil = no more txs in this block
+	NextBlock(r *Run) *Block     // nil = end
+	NextTx(r *Run, b *Block) *Tx // nil = no more txs in this block
+}
+
+// QuerySource is optionally implemented by generators that also issue queries after each block.
+type QuerySource interface {
+	NextQuery(r *Run, b *Block) *Query
 }
 
 // Monitor observes a run. Embed NopMonitor and override what is needed.
@@ -95,26 +111,28 @@ type Monitor interface {
 	AfterTx(r *Run, tx *Tx, msgs []sdk.Msg, res *TxResult)
 	AfterEnd(r *Run, resp abci.ResponseEndBlock)
 	AfterCommit(r *Run)
+	AfterQuery(r *Run, q *Query, resp abci.ResponseQuery, pi *PanicInfo)
 	Finish(r *Run)
 }
 
 type NopMonitor struct{}
 
-func (NopMonitor) Init(*Run)                                       {}
-func (NopMonitor) BeforeBlock(*Run, *Block)                        {}
-func (NopMonitor) AfterBegin(*Run, abci.ResponseBeginBlock)        {}
-func (NopMonitor) BeforeTx(*Run, *Tx, []sdk.Msg)                   {}
-func (NopMonitor) AfterTx(*Run, *Tx, []sdk.Msg, *TxResult)         {}
-func (NopMonitor) AfterEnd(*Run, abci.ResponseEndBlock)            {}
-func (NopMonitor) AfterCommit(*Run)                                {}
-func (NopMonitor) Finish(*Run)                                     {}
+func (NopMonitor) Init(*Run)                                               {}
+func (NopMonitor) BeforeBlock(*Run, *Block)                                {}
+func (NopMonitor) AfterBegin(*Run, abci.ResponseBeginBlock)                {}
+func (NopMonitor) BeforeTx(*Run, *Tx, []sdk.Msg)                           {}
+func (NopMonitor) AfterTx(*Run, *Tx, []sdk.Msg, *TxResult)                 {}
+func (NopMonitor) AfterEnd(*Run, abci.ResponseEndBlock)                    {}
+func (NopMonitor) AfterCommit(*Run)                                        {}
+func (NopMonitor) Finish(*Run)                                             {}
+func (NopMonitor) AfterQuery(*Run, *Query, abci.ResponseQuery, *PanicInfo) {}
 
 // Stats are per-run counters merged into the evidence.
 type Stats struct {
 	Counters map[string]int64
 }
 
-func (s *Stats) Inc(k string)            { s.Add(k, 1) }
+func (s *Stats) Inc(k string) { s.Add(k, 1) }
 func (s *Stats) Add(k string, n int64) {
 	if s.Counters == nil {
 		s.Counters = map[string]int64{}
@@ -129,23 +147,23 @@ func (s *Stats) Merge(o *Stats) {
 
 // Run is one chain driven through a sequence of blocks with monitors attached.
 type Run struct {
-	Chain      *Chain
-	Spec       *WorldSpec
-	Monitors   []Monitor
-	Violations []*Violation
-	Stats      Stats
-	BlockIdx   int
-	TxIdx      int
+	Chain           *Chain
+	Spec            *WorldSpec
+	Monitors        []Monitor
+	Violations      []*Violation
+	Stats           Stats
+	BlockIdx        int
+	TxIdx           int
 	StopOnViolation bool
-	CrashDB    *CrashDB // set when the run uses the crash-capable disk
-	UseBankHook bool
-	SimStart   time.Time
-	AppHashes  [][]byte
-	Recorded   []Block // what was actually executed (generator mode fills it)
-	MaxBlocks  int
-	Log        []string // deterministic event log for the self-test (digests only)
-	KeepLog    bool
-	InfraErr   error // harness/infrastructure trouble (exit 2), never a violation
+	CrashDB         *CrashDB // set when the run uses the crash-capable disk
+	UseBankHook     bool
+	SimStart        time.Time
+	AppHashes       [][]byte
+	Recorded        []Block // what was actually executed (generator mode fills it)
+	MaxBlocks       int
+	Log             []string // deterministic event log for the self-test (digests only)
+	KeepLog         bool
+	InfraErr        error // harness/infrastructure trouble (exit 2), never a violation
 
 	currentBlockTxBytes []deliveredTx
 }
@@ -248,6 +266,7 @@ func (r *Run) Drive(src Source) {
 func (r *Run) ExecBlock(b *Block, src Source) {
 	c := r.Chain
 	rec := Block{DtNs: b.DtNs, BankFail: b.BankFail, FailDestOn: b.FailDestOn, FailDestOff: b.FailDestOff, FailBurn: b.FailBurn, Crash: b.Crash, Note: b.Note}
+	defer func() { r.Recorded = append(r.Recorded, rec) }()
 	r.TxIdx = -1
 	r.currentBlockTxBytes = nil
 	if c.Bank != nil {
@@ -277,7 +296,6 @@ func (r *Run) ExecBlock(b *Block, src Source) {
 	bresp, pi := c.BeginBlock(t)
 	if pi != nil {
 		r.logf("H%d begin PANIC %s", c.Header.Height, pi.Value)
-		r.Recorded = append(r.Recorded, rec)
 		for _, m := range r.Monitors {
 			m.AfterBegin(r, bresp)
 		}
@@ -310,7 +328,6 @@ func (r *Run) ExecBlock(b *Block, src Source) {
 	eresp, pi := c.EndBlock()
 	if pi != nil {
 		r.logf("H%d end PANIC %s", c.Header.Height, pi.Value)
-		r.Recorded = append(r.Recorded, rec)
 		for _, m := range r.Monitors {
 			m.AfterEnd(r, eresp)
 		}
@@ -330,10 +347,34 @@ func (r *Run) ExecBlock(b *Block, src Source) {
 			r.logf("H%d commit %x end_ev=%s", c.Height, hash, DigestEvents(eresp.Events))
 		}
 	}
-	r.Recorded = append(r.Recorded, rec)
 	if r.Chain.Halted == nil {
 		for _, m := range r.Monitors {
 			m.AfterCommit(r)
+		}
+		// recorded or generated queries against the committed state
+		qi := 0
+		for {
+			if r.StopOnViolation && r.Failed() {
+				break
+			}
+			var q *Query
+			if qs, ok := src.(QuerySource); ok && src != nil {
+				q = qs.NextQuery(r, b)
+			} else if qi < len(b.Queries) {
+				q = &b.Queries[qi]
+			}
+			if q == nil {
+				break
+			}
+			qi++
+			rec.Queries = append(rec.Queries, *q)
+			data, _ := base64.StdEncoding.DecodeString(q.Data)
+			resp, pi := r.Chain.Query(q.Path, data)
+			r.Stats.Inc("query")
+			r.logf("  query %s code=%d", q.Path, resp.Code)
+			for _, m := range r.Monitors {
+				m.AfterQuery(r, q, resp, pi)
+			}
 		}
 	}
 }
